@@ -11,6 +11,8 @@
 From Coq Require Import List ZArith Bool Relations.
 Import ListNotations.
 Require Import Gram.Model.Term Gram.Model.DeBruijn Gram.Model.Eval Gram.Spec.Typing Gram.Oracle.Infer Gram.Proofs.InferSound Gram.Proofs.ConvProofs Gram.Proofs.ConvSym Gram.Model.ModelB Gram.Proofs.ModelBHoleFree.
+Require Import Gram.Proofs.CtxProofs Gram.Proofs.WeakenProofs Gram.Proofs.ConfluenceEval Gram.Proofs.ConfluenceEvalCtx Gram.Proofs.ConvConsistent.
+Require Gram.Proofs.ConvCollapse.
 
 Theorem C06_step_in_conv : forall t G t', step t = Some t' -> conv G t t'.
 Proof. exact step_in_conv. Qed.
@@ -98,3 +100,52 @@ Check C06_unifyB_iff_normal_forms_equal : forall f s D a b r s' G f' na nb,
   unifyB f s D a b = Some (r, s') -> nf f' G a = Some na -> nf f' G b = Some nb ->
   (r = true <-> na = nb).
 Print Assumptions C06_unifyB_iff_normal_forms_equal.
+
+(* COHERENCE WITH EVALUATION, the first sentence of the property, as a theorem (Proofs/ConfluenceEval.v,
+   ConfluenceEvalCtx.v): for every hole-free program - groups, recursion, any fuel - if running it yields a literal
+   (true, false) then normalising it the way the checker does yields the same literal (true, false); also under any
+   well-formed hole-free context with definitions. It rests on confluence (Proofs/Confluence*.v: parallel reduction,
+   complete developments, Church-Rosser for the repaired `conv`), which also makes the soundness theorems above
+   non-trivial: definitional equality is CONSISTENT - distinct type formers and distinct literals are not
+   convertible, function types are injective - and on closed hole-free terms the conversion test DECIDES it. *)
+Theorem C06_normalising_agrees_with_running : forall G f f' t w, wf_offsets G -> ctx_hf G -> hole_free t = true -> whnf f' G t = Some w ->
+  (forall z, evaluate f t = Some (TLit z) -> w = TLit z) /\
+  (evaluate f t = Some TTrue -> w = TTrue) /\ (evaluate f t = Some TFalse -> w = TFalse).
+Proof. intros G f f' t w W F Hf Hw. split; [|split]; intros; [eapply whnf_evaluate_lit_ctx | eapply whnf_evaluate_true_ctx | eapply whnf_evaluate_false_ctx]; eauto. Qed.
+Check C06_normalising_agrees_with_running : forall G f f' t w, wf_offsets G -> ctx_hf G -> hole_free t = true -> whnf f' G t = Some w ->
+  (forall z, evaluate f t = Some (TLit z) -> w = TLit z) /\
+  (evaluate f t = Some TTrue -> w = TTrue) /\ (evaluate f t = Some TFalse -> w = TFalse).
+Print Assumptions C06_normalising_agrees_with_running.
+
+Theorem C06_definitional_equality_is_consistent : forall G, wf_offsets G -> ctx_hf G ->
+  ~ conv G TInt TBool /\ ~ conv G TType TInt /\ ~ conv G TTrue TFalse /\ (forall x y, conv G (TLit x) (TLit y) -> x = y) /\
+  (forall im A B, ~ conv G TInt (TPi im A B)).
+Proof. intros G W F. repeat split; [apply conv_int_bool | apply conv_type_int | apply conv_true_false | intros x y; apply conv_lit_inj | intros im A B; apply conv_catom_pi]; auto. Qed.
+Check C06_definitional_equality_is_consistent : forall G, wf_offsets G -> ctx_hf G ->
+  ~ conv G TInt TBool /\ ~ conv G TType TInt /\ ~ conv G TTrue TFalse /\ (forall x y, conv G (TLit x) (TLit y) -> x = y) /\
+  (forall im A B, ~ conv G TInt (TPi im A B)).
+Print Assumptions C06_definitional_equality_is_consistent.
+
+Theorem C06_function_types_injective : forall G im A B im' A' B', wf_offsets G -> ctx_hf G ->
+  hole_free A = true -> hole_free B = true -> hole_free A' = true -> hole_free B' = true ->
+  conv G (TPi im A B) (TPi im' A' B') -> im = im' /\ conv G A A' /\ conv (bind G A) B B'.
+Proof. exact conv_pi_inj. Qed.
+Check C06_function_types_injective : forall G im A B im' A' B', wf_offsets G -> ctx_hf G ->
+  hole_free A = true -> hole_free B = true -> hole_free A' = true -> hole_free B' = true ->
+  conv G (TPi im A B) (TPi im' A' B') -> im = im' /\ conv G A A' /\ conv (bind G A) B B'.
+Print Assumptions C06_function_types_injective.
+
+Theorem C06_conversion_test_decides : forall f a b r, hole_free a = true -> hole_free b = true ->
+  convb f [] a b = Some r -> (r = true <-> conv [] a b).
+Proof. exact convb_decides_conv. Qed.
+Check C06_conversion_test_decides : forall f a b r, hole_free a = true -> hole_free b = true ->
+  convb f [] a b = Some r -> (r = true <-> conv [] a b).
+Print Assumptions C06_conversion_test_decides.
+
+(* regression for the defect of the specification found on the way: with the group rule as first written
+   (definitions visible while two groups are compared) every two terms were convertible *)
+Theorem C06_old_group_rule_was_total : forall G a b, ConvCollapse.conv_old G a b.
+Proof. exact ConvCollapse.conv_old_total. Qed.
+Check C06_old_group_rule_was_total : forall G a b, ConvCollapse.conv_old G a b.
+Print Assumptions C06_old_group_rule_was_total.
+
